@@ -3,11 +3,12 @@ CONSTANTS
   Nodes = {"a", "b"}
   Endorsors = {"e1", "e2"}
   Endorsement = 1
+  Cap = 101
   None = "none"
   MaxBlocks = 1000
   MaxTx = 3
   Genesis <- Gen1
-  MBPs = {1, 2}
+  MBPs = {0, 1, 200}
   Bals = {0, 1, 2}
 INVARIANT Export
 INVARIANT ListIsInsertionOrder
